@@ -17,10 +17,17 @@ CLAIMED = {
                 "row_bin_follows_coords, calcBin_eq_none_iff). The model is tied to bins.py by an exhaustive "
                 "boundary-pair correspondence (every pair of coordinates within +-2 of bin boundaries at every level, "
                 "0 and 2^29) plus random pairs, by a constants comparison with the live module, and Feature.bin is "
-                "compared too. An independent interval-arithmetic oracle judges the real code.",
-        "note": "Trusted: Lean kernel + standard axioms; the hand-written model GffModel.Bins (23 lines) and its "
-                "correspondence (sampled, exhaustive on the boundary grid); Python >> = floor shift.",
-        "technique": "Lean 4 theorems (omega over unrolled levels) + exhaustive boundary correspondence",
+                "compared too. An independent interval-arithmetic oracle judges the real code. In addition bins() is tied "
+                "the other way as well: tools/py2lean.py translates the source text of the imported bins.py into Lean on "
+                "every run and GffProofs.Gen.bins_eq_model proves the model EQUAL to the translation for all integers, so the "
+                "soundness theorems are restated of the translated function; when the source leaves the translator's "
+                "fragment this tie is reported as unavailable and the correspondence alone decides (DESIGN 8.10). The stored "
+                "bin is checked after every write path (replace, update, add_relation rewrite, merge_all, transform).",
+        "note": "Trusted: Lean kernel + standard axioms; the hand-written model GffModel.Bins (23 lines), its "
+                "correspondence (sampled, exhaustive on the boundary grid) and the translator tools/py2lean.py "
+                "(Python int = Lean Int, >> = floor shift, a set of ints = a list observed through membership).",
+        "technique": "Lean 4 theorems (omega over unrolled levels) + model proved equal to the Lean translation of the current "
+                     "source of bins() + exhaustive boundary correspondence",
         "design_ref": "DESIGN.md §3 C12",
     },
 }
